@@ -251,3 +251,20 @@ def nontrivial(wf):
                     walk(b.get('steps', []))
     walk(wf['steps'])
     return nb >= 1 or na >= 3
+
+
+def strip_ids(wf, rng, p=0.6):
+    """variant without explicit ids on steps and acts (the engine generates them); branch ids stay because `needs` refers to them"""
+    w = json.loads(json.dumps(wf))
+
+    def walk(steps):
+        for st in steps:
+            if rng.random() < p and not st.get('next'):
+                st.pop('id', None)
+            for a in st.get('acts', []):
+                if rng.random() < p:
+                    a.pop('id', None)
+            for b in st.get('branches', []):
+                walk(b.get('steps', []))
+    walk(w['steps'])
+    return w
